@@ -90,6 +90,9 @@ Record outputs := {
   o_energy_sim : T; o_max_supply : T }.
 
 Definition replicate (n:nat) (x:T) : list T := repeat x n.
+(* power_grid_supply_list = [max(-v, 0) for v in power_grid_supply_list] *)
+Definition pos_supply (l:list T) : list T := map (fun v => nmax (nneg v) zero) l.
+Definition pos_part (l:list T) : list T := map (fun v => nmax v zero) l.
 
 (* fixed-load part shared by balanced_market / flex_window / schedule *)
 Definition fixed_part (sh:sheet) (ft:option fee) (fixl:list T) (secs fy:T) (reduction:T) : res (T*T*T*option fee) :=
@@ -103,10 +106,49 @@ Definition fixed_part (sh:sheet) (ft:option fee) (fixl:list T) (secs fy:T) (redu
   let! (py, sim) := commodity_costs (replicate (length fixl) com) fixl secs fy in
   Ok (py, sim, cap * mx, Some f).
 
+(* costs not related to strategies, taxes, totals *)
+Definition finalize (sh:sheet) (inp:inputs) (energy_sim max_supply:T) (peak_out:option T)
+                    (com_py com_sim cap:T) (fee2:fee) (proc_var:option T) : res outputs :=
+  let secs := i_secs inp in let fy := i_fy inp in
+  let add_py := match fee2 with RLM => additional sh | SLP => zero end in
+  let add_sim := add_py * fy in
+  let per100 (rate:T) : res T := ndiv (rate * energy_sim) c100 in
+  let! proc_sim := match proc_var with Some p => Ok p | None => per100 (procurement sh) end in
+  let! proc_py := ndiv proc_sim fy in
+  let rates := [eeg sh; chp sh; indiv sh; offshore sh; interruptible sh] in
+  let! lev_sim := (fix go (l:list T) : res (list T) := match l with [] => Ok [] | r :: t => let! x := per100 r in let! tl := go t in Ok (x :: tl) end) rates in
+  let! lev_py := (fix go (l:list T) : res (list T) := match l with [] => Ok [] | x :: t => let! y := ndiv x fy in let! tl := go t in Ok (y :: tl) end) lev_sim in
+  let lev_total_sim := fold_left nadd lev_sim zero in      (* eeg + chp + individual + offshore + interruptible *)
+  let! con_sim := per100 (concession sh) in let! con_py := ndiv con_sim fy in
+  (* feed-in remuneration *)
+  let! pv_charge :=
+    (if neqb (i_pv_nominal inp) zero then Ok zero else
+     match pv_kwp sh, pv_rem sh with
+     | [k0;k1;k2], [r0;r1;r2] => if i_pv_nominal inp <=? k0 then Ok r0 else if i_pv_nominal inp <=? k1 then Ok r1
+                                 else if i_pv_nominal inp <=? k2 then Ok r2 else Err ValueErr
+     | _, _ => Err IndexErr end) in
+  let! (pv_py, pv_sim) := feed_in pv_charge (i_gen inp) secs fy in
+  let! (v2g_py, v2g_sim) := feed_in (v2g_rem sh) (i_v2g inp) secs fy in
+  let! (bat_py, bat_sim) := feed_in (bat_rem sh) (i_bat inp) secs fy in
+  let! tax_sim := per100 (etax sh) in let! tax_py := ndiv tax_sim fy in
+  let! vat := ndiv (vat_percent sh) c100 in
+  let net_sim := com_sim + cap + proc_sim + add_sim + lev_total_sim + con_sim + tax_sim in
+  let! net_py0 := ndiv (net_sim - cap) fy in
+  let net_py := net_py0 + cap in
+  let vat_sim := vat * net_sim in let vat_py := vat * net_py in
+  let gross_sim := net_sim + vat_sim in let gross_py := net_py + vat_py in
+  Ok {| o_fee := fee2; o_commodity_py := com_py; o_commodity_sim := com_sim; o_capacity := cap;
+        o_procurement_py := proc_py; o_procurement_sim := proc_sim; o_additional_py := add_py; o_additional_sim := add_sim;
+        o_levies_py := lev_py; o_levies_sim := lev_sim; o_concession_py := con_py; o_concession_sim := con_sim;
+        o_etax_py := tax_py; o_etax_sim := tax_sim; o_net_py := net_py; o_net_sim := net_sim;
+        o_vat_py := vat_py; o_vat_sim := vat_sim; o_feedin_py := [pv_py; v2g_py; bat_py]; o_feedin_sim := [pv_sim; v2g_sim; bat_sim];
+        o_total_py := gross_py - pv_py - v2g_py - bat_py; o_total_sim := gross_sim - pv_sim - v2g_sim - bat_sim;
+        o_peak_in_windows := peak_out; o_energy_sim := energy_sim; o_max_supply := max_supply |}.
+
 Definition calculate_costs (sh:sheet) (inp:inputs) : res outputs :=
   let secs := i_secs inp in let fy := i_fy inp in let cc := i_cc inp in
-  let supply := map (fun v => nmax (nneg v) zero) (i_supply inp) in
-  let fixl := map (fun v => nmax v zero) (i_fix inp) in
+  let supply := pos_supply (i_supply inp) in
+  let fixl := pos_part (i_fix inp) in
   let peak_w := match i_window inp with
      | Some w => Some (maxl0 (map fst (filter (fun lw => snd lw) (combine supply w)))) | None => None end in
   let! energy_sim := ndiv (nsum supply * secs) c3600 in
@@ -190,39 +232,6 @@ Definition calculate_costs (sh:sheet) (inp:inputs) : res outputs :=
              Ok (sched_dev_charge sh * nmax (md - ms * sched_dev_tol sh) zero) end in
         Ok (fpy + xpy, fsim + xsim, fcap + capx, f3)
      | _ => Ok (com_py, com_sim, cap0, fee1) end) in
-  (* costs not related to strategies *)
-  let add_py := match fee2 with RLM => additional sh | SLP => zero end in
-  let add_sim := add_py * fy in
-  let per100 (rate:T) : res T := ndiv (rate * energy_sim) c100 in
-  let! proc_sim := match proc_var with Some p => Ok p | None => per100 (procurement sh) end in
-  let! proc_py := ndiv proc_sim fy in
-  let rates := [eeg sh; chp sh; indiv sh; offshore sh; interruptible sh] in
-  let! lev_sim := (fix go (l:list T) : res (list T) := match l with [] => Ok [] | r :: t => let! x := per100 r in let! tl := go t in Ok (x :: tl) end) rates in
-  let! lev_py := (fix go (l:list T) : res (list T) := match l with [] => Ok [] | x :: t => let! y := ndiv x fy in let! tl := go t in Ok (y :: tl) end) lev_sim in
-  let lev_total_sim := fold_left nadd lev_sim zero in      (* eeg + chp + individual + offshore + interruptible *)
-  let! con_sim := per100 (concession sh) in let! con_py := ndiv con_sim fy in
-  (* feed-in remuneration *)
-  let! pv_charge :=
-    (if neqb (i_pv_nominal inp) zero then Ok zero else
-     match pv_kwp sh, pv_rem sh with
-     | [k0;k1;k2], [r0;r1;r2] => if i_pv_nominal inp <=? k0 then Ok r0 else if i_pv_nominal inp <=? k1 then Ok r1
-                                 else if i_pv_nominal inp <=? k2 then Ok r2 else Err ValueErr
-     | _, _ => Err IndexErr end) in
-  let! (pv_py, pv_sim) := feed_in pv_charge (i_gen inp) secs fy in
-  let! (v2g_py, v2g_sim) := feed_in (v2g_rem sh) (i_v2g inp) secs fy in
-  let! (bat_py, bat_sim) := feed_in (bat_rem sh) (i_bat inp) secs fy in
-  let! tax_sim := per100 (etax sh) in let! tax_py := ndiv tax_sim fy in
-  let! vat := ndiv (vat_percent sh) c100 in
-  let net_sim := com_sim + cap + proc_sim + add_sim + lev_total_sim + con_sim + tax_sim in
-  let! net_py0 := ndiv (net_sim - cap) fy in
-  let net_py := net_py0 + cap in
-  let vat_sim := vat * net_sim in let vat_py := vat * net_py in
-  let gross_sim := net_sim + vat_sim in let gross_py := net_py + vat_py in
-  Ok {| o_fee := fee2; o_commodity_py := com_py; o_commodity_sim := com_sim; o_capacity := cap;
-        o_procurement_py := proc_py; o_procurement_sim := proc_sim; o_additional_py := add_py; o_additional_sim := add_sim;
-        o_levies_py := lev_py; o_levies_sim := lev_sim; o_concession_py := con_py; o_concession_sim := con_sim;
-        o_etax_py := tax_py; o_etax_sim := tax_sim; o_net_py := net_py; o_net_sim := net_sim;
-        o_vat_py := vat_py; o_vat_sim := vat_sim; o_feedin_py := [pv_py; v2g_py; bat_py]; o_feedin_sim := [pv_sim; v2g_sim; bat_sim];
-        o_total_py := gross_py - pv_py - v2g_py - bat_py; o_total_sim := gross_sim - pv_sim - v2g_sim - bat_sim;
-        o_peak_in_windows := (if w_plw cc then Some (match peak_w with Some p => p | None => zero end) else peak_w); o_energy_sim := energy_sim; o_max_supply := max_supply |}.
+  finalize sh inp energy_sim max_supply (if w_plw cc then Some (match peak_w with Some p => p | None => zero end) else peak_w)
+           com_py com_sim cap fee2 proc_var.
 End Model.
